@@ -33,6 +33,8 @@ type aPtr struct{ cell *acell }
 
 type aArr struct{ cells []*acell }
 
+type aNilIface struct{}
+
 type bpInterp struct {
 	u     *Universe
 	steps int
@@ -88,6 +90,8 @@ func (i *bpInterp) zero(t types.Type) aval {
 		return aSlice{}
 	case *types.Pointer:
 		return aPtr{nil}
+	case *types.Interface:
+		return aNilIface{} // a nil interface value (a nil error result): carried, never inspected
 	}
 	i.fail("no abstract zero value for %s", t)
 	return nil
